@@ -342,6 +342,49 @@ func c16(c *Ctx) {
 			good, why = totalFanout(g, calls[0])
 		}
 		c.Check(good, "R4", "global|"+sp.fn+"|every placeholder gets setDelegate", at(gx.M, fn.Pos()), "total loop", "a tracer/meter created before installation is never connected: "+why)
+		// publishing the delegate, walking the placeholders and forgetting them is one critical section of the provider's
+		// mutex: a Tracer()/Meter() call that gets the lock in between would see "no delegate" and add a placeholder to a
+		// collection nobody walks any more
+		if len(calls) == 1 {
+			typ := strings.TrimSuffix(strings.TrimPrefix(sp.fn, "(*"), ").setDelegate")
+			coll := map[string]string{"meterProvider": "meters", "tracerProvider": "tracers"}[typ]
+			fDel, fColl := lookupField(gx.Pkg, typ, "delegate"), lookupField(gx.Pkg, typ, coll)
+			mu := varKey(fn.Recv()) + resolvePath(gx.Pkg, typ, ".mtx")
+			le := c.Locks(gx)
+			var store, clear *GNode
+			for _, x := range g.Nodes {
+				if x.N == nil {
+					continue
+				}
+				if assignRHS(x.N, func(e ast.Expr) bool { return isField(info, e, fDel) }) != nil {
+					store = x
+				}
+				if r := assignRHS(x.N, func(e ast.Expr) bool { return isField(info, e, fColl) }); r != nil && isNilIdent(info, r) {
+					clear = x
+				}
+			}
+			key := "global|" + sp.fn + "|delegate published, placeholders walked and forgotten in one critical section"
+			switch {
+			case fDel == nil || fColl == nil:
+				c.Missing("R4", "global."+typ+".delegate/"+coll)
+			case store == nil || clear == nil:
+				c.Violation("R4", key, at(gx.M, fn.Pos()), "the store of the delegate or the clearing of the placeholder collection is not part of setDelegate's own critical section (moved into a helper that locks for itself?): a placeholder created in between is never connected")
+			default:
+				walk := calls[0]
+				held := le.Held(fn)
+				okHeld := held[store][mu] && held[walk][mu] && held[clear][mu]
+				var rel *GNode
+				for _, pr := range [][2]*GNode{{store, walk}, {walk, clear}, {store, clear}, {walk, store}, {clear, store}} {
+					if r := le.ReleasesBetween(fn, pr[0], pr[1], mu); r != nil {
+						if s, _ := g.Reach([]*GNode{pr[0]}, nil, nil); s[pr[1]] {
+							rel = r
+						}
+					}
+				}
+				c.Check(okHeld && rel == nil, "R4", key, at(gx.M, fn.Pos()), "mtx held throughout",
+					"the provider's mutex is not held (or is released) between publishing the delegate, walking the placeholders and clearing them: a Tracer()/Meter() call in the gap creates a placeholder that is never connected")
+			}
+		}
 	}
 	if fn := c.Fn(gx, "R4", "(*meter).setDelegate"); fn != nil {
 		g := gx.FG(fn)
